@@ -38,6 +38,7 @@ import (
 	governance "github.com/oasisprotocol/oasis-core/go/governance/api"
 	staking "github.com/oasisprotocol/oasis-core/go/staking/api"
 
+	"github.com/oasisprotocol/oasis-core/go/common/cbor"
 	"github.com/oasisprotocol/oasis-core/go/common/logging"
 
 	cmtcrypto "github.com/oasisprotocol/oasis-core/go/consensus/cometbft/crypto"
@@ -97,6 +98,10 @@ type history struct {
 	extra    []staking.Address // fresh and reserved destinations
 	proposal uint64            // number of proposals submitted so far
 	// the harness's own bookkeeping of WHO must be slashed / rewarded (not read from events)
+	campaigns bool          // governance campaigns: staking ChangeParameters proposals pushed through by all validators
+	camp      *campaign
+	lastWeights string
+	campNext  int
 	victim   int            // repeated-slash regime: index of the validator that is slashed again and again (-1: none)
 	mock     bool           // MockEpochs history: epochs advance (and jump) only through SetEpoch transactions
 	frozen   map[int]bool   // validators frozen by an earlier slash (no unfreeze transactions are generated)
@@ -277,6 +282,9 @@ func newHistory(seed uint64, run int, sum *coqout.Summary, w *coqout.Writer) (*h
 	sum.Count("genesis_min_transact_balance", fmt.Sprint(minTransact))
 	sum.Count("genesis_common_pool", poolVariant)
 	sum.Count("genesis_epochs", map[bool]string{true: "mock (set-epoch transactions, jumps)", false: "insecure beacon (every 4 blocks)"}[h.mock])
+	h.campaigns = !h.mock && gr.Chance(85)
+	h.campNext = 1
+	sum.Count("genesis_governance_campaigns", fmt.Sprint(h.campaigns))
 	sum.Count("genesis_slashing", slashVariant)
 	h.victim = -1
 	if slashVariant != "default" {
@@ -586,6 +594,7 @@ type genTx struct {
 	method  string
 	body    func(x *index, ok bool) string // Coq body term given the tx result
 	addrs   []staking.Address
+	after   func(ok bool) // harness bookkeeping once the result is known
 	nomodel bool   // fails before authentication (bad signature): no model operation
 	flavor  string // what is (in)valid about it
 }
@@ -915,6 +924,78 @@ func resultClass(tr *muxdrv.TxResult) string {
 
 // ---------- one block ----------
 
+// campaign is one staking ChangeParameters proposal and the votes that make it pass.
+type campaign struct {
+	changes staking.ConsensusParameterChanges
+	desc    string
+	id      uint64 // 0 = not submitted yet
+	voted   map[int]bool
+	first   bool
+	start   int
+}
+
+func qp(v uint64) *quantity.Quantity { return quantity.NewFromUint64(v) }
+
+// newChanges draws parameter changes that ConsensusParameterChanges.SanityCheck and
+// ConsensusParameters.SanityCheck accept (fee weights not all zero).
+func newChanges(r *prng.R, forceZeroVQ bool) (staking.ConsensusParameterChanges, string) {
+	var c staking.ConsensusParameterChanges
+	var d []string
+	weights := func(w [3]uint64) {
+		c.FeeSplitWeightPropose, c.FeeSplitWeightVote, c.FeeSplitWeightNextPropose = qp(w[0]), qp(w[1]), qp(w[2])
+		d = append(d, fmt.Sprintf("weights=%d/%d/%d", w[0], w[1], w[2]))
+	}
+	if forceZeroVQ {
+		weights([3]uint64{uint64(1 + r.Intn(5)), 0, 0})
+	}
+	n := 1 + r.Intn(3)
+	for i := 0; i < n; i++ {
+		switch r.Intn(9) {
+		case 0:
+			if c.FeeSplitWeightPropose == nil {
+				weights([][3]uint64{{1, 0, 0}, {5, 0, 0}, {0, 1, 1}, {2, 3, 4}, {0, 0, 3}, {1, 1, 0}, {0, 2, 0}}[r.Intn(7)])
+			}
+		case 1:
+			v := []uint64{0, 1, 3}[r.Intn(3)]
+			c.RewardFactorEpochSigned = qp(v)
+			d = append(d, fmt.Sprint("factor_signed=", v))
+		case 2:
+			v := []uint64{0, 1, 2}[r.Intn(3)]
+			c.RewardFactorBlockProposed = qp(v)
+			d = append(d, fmt.Sprint("factor_proposed=", v))
+		case 3:
+			v := []uint64{0, 2, 5}[r.Intn(3)]
+			c.MinTransactBalance = qp(v)
+			d = append(d, fmt.Sprint("min_transact=", v))
+		case 4:
+			v := []uint64{0, 5, 50}[r.Intn(3)]
+			c.MinTransferAmount = qp(v)
+			d = append(d, fmt.Sprint("min_transfer=", v))
+		case 5:
+			v := []uint64{1, 10, 100}[r.Intn(3)]
+			c.MinDelegationAmount = qp(v)
+			d = append(d, fmt.Sprint("min_delegation=", v))
+		case 6:
+			v := []uint32{0, 1, 8}[r.Intn(3)]
+			c.MaxAllowances = &v
+			d = append(d, fmt.Sprint("max_allowances=", v))
+		case 7:
+			v := beacon.EpochTime(1 + r.Intn(3))
+			c.DebondingInterval = &v
+			d = append(d, fmt.Sprint("debonding_interval=", v))
+		case 8:
+			sc := []staking.RewardStep{{Until: 1_000_000, Scale: *qp([]uint64{0, 1_000_000, 5_000_000}[r.Intn(3)])}}
+			c.RewardSchedule = &sc
+			d = append(d, "reward_schedule")
+		}
+	}
+	if len(d) == 0 {
+		c.RewardFactorEpochSigned = qp(1)
+		d = append(d, "factor_signed=1")
+	}
+	return c, strings.Join(d, ",")
+}
+
 var errHalt = fmt.Errorf("chain halted: no validators electable")
 
 type blockOut struct {
@@ -999,6 +1080,111 @@ func (h *history) warmup() (*blockOut, error) {
 		out.violations = append(out.violations, "in-tree supplementarysanity / replay failed: "+err.Error())
 	}
 	return out, nil
+}
+
+// campaignTxs adds the governance campaign's transactions of this block: the proposal, then
+// yes votes of all validator entities; and one plain fee-paying transfer so that every block
+// around the parameter change carries fees.
+func (h *history) campaignTxs(r *prng.R, pre *blockView, nonces map[staking.Address]uint64, blockNo int, gts *[]*genTx, cand *[][]byte) {
+	nonceOf := func(a staking.Address) uint64 {
+		if n, ok := nonces[a]; ok {
+			return n
+		}
+		return pre.nonce(a)
+	}
+	add := func(sd sender, method string, cost uint64, feeAmt int64, mk func(n uint64, f *transaction.Fee) *transaction.Transaction, body func(x *index, ok bool) string, after func(bool)) {
+		n := nonceOf(sd.addr)
+		t := &genTx{snd: sd, nonce: n, fee: big.NewInt(feeAmt), gas: muxdrv.DefaultGas, method: method, opCost: cost, flavor: "campaign", body: body, after: after}
+		t.raw = muxdrv.Sign(sd.key, mk(n, &transaction.Fee{Amount: qty(t.fee), Gas: transaction.Gas(t.gas)}))
+		nonces[sd.addr] = n + 1
+		*gts = append(*gts, t)
+		*cand = append(*cand, t.raw)
+	}
+	other := func(_ *index, ok bool) string { return fmt.Sprintf("(BOther %s)", coqout.Bool(ok)) }
+	// a fee-paying transfer in every block
+	{
+		sd := h.senders[5+r.Intn(6)]
+		to := h.senders[4+r.Intn(8)].addr
+		amt := big.NewInt(int64(60 + r.Intn(100)))
+		add(sd, "transfer", uint64(pre.params.GasCosts[staking.GasOpTransfer]), int64(20+r.Intn(30)),
+			func(n uint64, f *transaction.Fee) *transaction.Transaction {
+				return staking.NewTransferTx(n, f, &staking.Transfer{To: to, Amount: qty(amt)})
+			},
+			func(x *index, _ bool) string { return fmt.Sprintf("(BTransfer %s %s)", x.of(to), amt) }, nil)
+		(*gts)[len(*gts)-1].addrs = []staking.Address{to}
+	}
+	gp := h.g.Doc.Governance.Parameters
+	if h.camp == nil && blockNo >= h.campNext {
+		first := h.campNext == 1
+		ch, desc := newChanges(r, first && r.Chance(80))
+		h.camp = &campaign{changes: ch, desc: desc, voted: map[int]bool{}, first: first, start: blockNo}
+	}
+	c := h.camp
+	if c == nil {
+		return
+	}
+	if blockNo > c.start+7 {
+		// the voting period is over (a validator that lost its stake cannot vote)
+		h.sum.Count("campaign", "abandoned: not every validator could vote")
+		h.camp = nil
+		h.campNext = blockNo + 2
+		return
+	}
+	if c.id == 0 {
+		sd := h.senders[4+r.Intn(4)]
+		dep := gp.MinProposalDeposit.ToBigInt()
+		changes := c.changes
+		add(sd, "gov_submit", uint64(gp.GasCosts[governance.GasOpSubmitProposal]), int64(r.Intn(10)),
+			func(n uint64, f *transaction.Fee) *transaction.Transaction {
+				return governance.NewSubmitProposalTx(n, f, &governance.ProposalContent{
+					Metadata:         &governance.ProposalMetadata{Title: "verif staking parameters"},
+					ChangeParameters: &governance.ChangeParametersProposal{Module: staking.ModuleName, Changes: cbor.Marshal(changes)},
+				})
+			},
+			func(_ *index, _ bool) string { return fmt.Sprintf("(BGovSubmit %s true true)", dep) },
+			func(ok bool) {
+				if ok {
+					c.id = h.proposal // counted just before this callback
+					h.sum.Count("campaign", "submitted: "+campaignClass(c.desc))
+				}
+			})
+		return
+	}
+	left := 0
+	for i := 0; i < 4; i++ {
+		if c.voted[i] {
+			continue
+		}
+		left++
+		if !r.Chance(70) {
+			continue
+		}
+		i := i
+		add(h.senders[i], "gov_vote", uint64(gp.GasCosts[governance.GasOpCastVote]), int64(r.Intn(6)),
+			func(n uint64, f *transaction.Fee) *transaction.Transaction { return muxdrv.TxCastVote(n, f, c.id, governance.VoteYes) },
+			other, func(ok bool) {
+				if ok {
+					c.voted[i] = true
+				}
+			})
+	}
+	if left == 0 {
+		// all validators voted: the proposal closes and passes two epochs after its creation;
+		// the next campaign starts after that
+		h.sum.Count("campaign", "all validators voted yes")
+		h.camp = nil
+		h.campNext = blockNo + 9
+	}
+}
+
+func campaignClass(d string) string {
+	if strings.Contains(d, "/0/0") {
+		return "vote+next weights zero"
+	}
+	if strings.Contains(d, "weights=") {
+		return "other weights"
+	}
+	return "no weights"
 }
 
 func (h *history) block(blockNo int, total int) (*blockOut, error) {
@@ -1105,6 +1291,9 @@ func (h *history) block(blockNo int, total int) (*blockOut, error) {
 		gts = append(gts, t)
 		cand = append(cand, t.raw)
 	}
+	if h.campaigns {
+		h.campaignTxs(r, pre, nonces, blockNo, &gts, &cand)
+	}
 	if h.mock && r.Chance(35) {
 		// advance the epoch by 1..4 (takes effect in the next block)
 		sd := h.senders[4+r.Intn(9)]
@@ -1197,6 +1386,18 @@ func (h *history) block(blockNo int, total int) (*blockOut, error) {
 		h.sum.Count("S_blocks", "in-tree-sanity-agrees")
 	}
 
+	wnow := fmt.Sprintf("%s/%s/%s", qs(&pre.params.FeeSplitWeightPropose), qs(&pre.params.FeeSplitWeightVote), qs(&pre.params.FeeSplitWeightNextPropose))
+	if h.lastWeights != "" && h.lastWeights != wnow {
+		k := "fee weights changed"
+		if strings.HasSuffix(wnow, "/0/0") {
+			k = "fee weights changed to vote+next = 0"
+			if pre.dump.LastBlockFees != "0" {
+				k += " with fees pending from the previous block"
+			}
+		}
+		h.sum.Count("params_in_effect", k)
+	}
+	h.lastWeights = wnow
 	// ---- K ----
 	epochChanged := height > 1 && post.dump.Epoch != pre.dump.Epoch
 	epoch := post.dump.Epoch
@@ -1318,6 +1519,9 @@ func (h *history) block(blockNo int, total int) (*blockOut, error) {
 		}
 		if t.method == "gov_submit" && tr.Code == 0 {
 			h.proposal++
+		}
+		if t.after != nil {
+			t.after(tr.Code == 0)
 		}
 		body := strings.ReplaceAll(t.body(x, tr.Code == 0), "EPOCH", fmt.Sprint(epoch))
 		if strings.HasPrefix(body, "(BOther") && cls != "ROk" && cls != "(RFail 10)" && cls != "(RFail 21)" && cls != "(RFail 22)" {
